@@ -934,6 +934,16 @@ func mainC13(rng *sx.Rng, out caser, thorough bool) {
 		}
 	}
 	lap("after-close")
+	// fn 11 / fn 12: packets of every kind for a channel that is closed (directly, through the reader, and in the window
+	// in which the reader has already looked the channel up); fn 10: several closers of one channel
+	genAfterClose(out, thorough)
+	lap("packets-after-close")
+	ncc := 1
+	if thorough {
+		ncc = 12
+	}
+	genConcClose(out, 10, ncc)
+	lap("concurrent-close")
 	// fn 2: racing cancellation and arrivals
 	reps := 2
 	if thorough {
